@@ -395,12 +395,12 @@ class C12(Check):
             # three or all four checksum bytes, checksum bytes permuted / reversed / rotated / complemented / zeroed, the checksum of
             # another blob, and pairs of body bytes changed by the same delta with the old checksum kept
             n = len(b)
-            cs = list(range(n - 4, n))
+            cpos = list(range(n - 4, n))
             for delta in (0x01, 0x80, 0xff, 0x5a):
                 for k in range(2, 5):
                     for start in range(0, 5 - k):
                         m = bytearray(b)
-                        for q in cs[start:start + k]:
+                        for q in cpos[start:start + k]:
                             m[q] ^= delta
                         all_forms(bytes(m), "checksum-multibyte-xor", ("bytes", "str") if bi % 3 == 0 else ("bytes",))
                 for (q1, q2) in ((n - 4, n - 2), (n - 4, n - 1), (n - 3, n - 1), (1, 2), (1, 33), (32, 64), (0, n - 1), (5, n - 4)):
@@ -409,7 +409,7 @@ class C12(Check):
                     m[q2] ^= delta
                     all_forms(bytes(m), "pair-xor-same-delta", ("bytes",))
                 m = bytearray(b)
-                for q in cs:
+                for q in cpos:
                     m[q] = (m[q] + delta) & 0xff
                 all_forms(bytes(m), "checksum-multibyte-add", ("bytes",))
             c4 = b[-4:]
